@@ -25,6 +25,16 @@ CHECKS = {
             'Every position of seeds x one representative of each of the behavioural classes of all Nd/No/Nl code points outside the '
             'clean-up table (thorough: every code point) and non-ASCII letter classes; invariant: accepted result is ASCII.',
             'Quick tier relies on behavioural-class equivalence of characters (class key listed in the evidence assumptions).', 'DESIGN.md 2/C15'),
+    'C05': ('E2', 'explicit-state search of the accepted-number graph + exhaustive check-position alternatives and payload neighbours, generator vs validator on the implementation',
+            'For every generator row of the shape table and every valid number reached by E2: generated check == present check, every '
+            'other check-alphabet character at each check position is rejected, and every single-substitution payload neighbour '
+            'completed with the generated check is never rejected with InvalidChecksum.',
+            'Shape table (payload slice / check positions per generator) is hand-written from docstrings; where validate() calls the '
+            'generator itself a wrong generator is only visible through clause (ii) (see C07/C17).', 'DESIGN.md 2/C05'),
+    'C17': ('E2', 'explicit-state search of the accepted-number graph + exhaustive single-substitution / adjacent-transposition neighbourhood on the implementation',
+            'The complete single-error neighbourhood (every position of the protected span x every other same-class character; every '
+            'adjacent transposition where promised) of every valid number reached by E2 is executed on is_valid(); none may be accepted.',
+            'Valid numbers reachable within E2 depth 1 (thorough 2) of the seeds; module/span table from the statement.', 'DESIGN.md 2/C17'),
 }
 
 NOT_YET = {}
